@@ -58,6 +58,7 @@ def bounds(tier):
 
 def jobs(tier, seed):
     out = [{'listhistory': True, 'oracle': orc, 'seed': seed} for orc in ORACLES]
+    out += [{'warmhistory': True, 'oracle': orc, 's': sn, 'seed': seed} for orc in ORACLES for sn in WARM_STRUCTS]
     its = ITERS if tier == 'thorough' else [1, 2, 3, 5, 20, 60]
     for sname in STRUCTS:
         for orc in ORACLES:
@@ -180,8 +181,55 @@ def run_list_history(orc, seed):
     return fails
 
 
+WARM_STRUCTS = ['chain', 'loop3', 'triples', 'disjoint-pair']
+
+
+def run_warm_history(orc, sname, seed):
+    """E3: three estimate calls on ONE engine built with warm_start=True (same measurements twice, then new answers); every call
+    must complete and return valid tables that fit no worse than the uniform start"""
+    from mbi import Domain, LocalInference
+    struct = STRUCTS[sname]
+    si = list(STRUCTS).index(sname)
+    kinds = ['dense', 'sparse', 'prefix', 'linop']
+    p1 = M.Problem(ATTRS, SIZES, struct, si, 'pos', seed, total=40.0, noise_mult=0.5, kinds=kinds)
+    p2 = M.Problem(ATTRS, SIZES, struct, si + 1, 'pos', seed + 1, total=40.0, noise_mult=0.5, kinds=kinds)
+    eng = LocalInference(Domain(ATTRS, SIZES), iters=60, marginal_oracle=orc, warm_start=True)
+    fails = []
+    step = 0
+    try:
+        with M.quiet():
+            # the same measurements twice (the second call starts where the first one stopped), then new answers
+            for step, p_ in enumerate((p1, p1, p2)):
+                model = eng.estimate(p_.fresh_measurements(), total=40.0)
+    except RecursionError as ex:
+        return [('raises', 'call %d of a warm-started engine raised RecursionError (mirror_descent_auto restarts itself with a halved step for ever)' % (step + 1))], 'RecursionError'
+    f = fu = 0.0
+    for (Qd, y, s_, cl, kd) in p2.dense:
+        v = np.asarray(model.project(cl).datavector(), dtype=float)
+        if not (np.all(np.isfinite(v)) and v.min() >= -1e-12 * 40.0 and abs(v.sum() - 40.0) <= 1e-9 * 40.0):
+            fails.append(('invalid', 'warm-started last call: table of %r is not a finite nonnegative table with the total (sum %.10g)' % (cl, v.sum())))
+            continue
+        r = (Qd @ v - y) / s_
+        f += 0.5 * float(r @ r)
+        u = np.ones(v.size) * 40.0 / v.size
+        r = (Qd @ u - y) / s_
+        fu += 0.5 * float(r @ r)
+    if not fails and f > fu * (1 + 1e-9) + 1e-12:
+        fails.append(('worse-than-uniform', 'warm-started last call: loss %.8g is worse than the uniform start %.8g' % (f, fu)))
+    return fails, None
+
+
 def run_job(job):
     acc = Acc()
+    if job.get('warmhistory'):
+        case = {'warmhistory': True, 'oracle': job['oracle'], 's': job['s'], 'seed': job['seed']}
+        acc.case(case)
+        fails, exc = run_warm_history(job['oracle'], job['s'], job['seed'])
+        acc.outcome('warm-history:%s' % ('ok' if not fails else 'FAIL'))
+        for kd, msg in fails:
+            acc.violate(case, {'kind': kd, 'oracle': job['oracle'], 'iters': 60, 'exc': exc, 'warm': True}, '%s / %s / warm_start=True: %s' % (job['s'], job['oracle'], msg))
+        acc.sample(case)
+        return acc
     if job.get('listhistory'):
         case = {'listhistory': True, 'oracle': job['oracle'], 'seed': job['seed']}
         acc.case(case)
@@ -220,6 +268,11 @@ def run_job(job):
 
 
 def replay(case):
+    if case.get('warmhistory'):
+        fails, exc = run_warm_history(case['oracle'], case['s'], case['seed'])
+        for k, m in fails:
+            print(k, m)
+        return [{'key': {'kind': k, 'warm': True}, 'msg': m} for k, m in fails]
     if case.get('listhistory'):
         fails = run_list_history(case['oracle'], case['seed'])
         for k, m in fails:
